@@ -28,7 +28,13 @@ pub enum Op {
     },
     Reset { n: usize },
     /// derived Clone of `src` becomes node `dst`
-    Fork { src: usize, dst: usize },
+    Fork {
+        src: usize,
+        dst: usize,
+        /// `dst.clone_from(&src)` into an existing instance of the same type instead of `dst = src.clone()`
+        #[serde(default)]
+        into: bool,
+    },
     Drop { n: usize },
     /// write a checkpoint generation to the simulated disk; `lost` = the write never became durable
     Ckpt { n: usize, lost: bool },
